@@ -47,8 +47,14 @@ func c03Last(s *scenario, seed uint64) {
 	want := len(small) + len(large)
 	viol := ""
 	done := 0
+	// its own share of the wall time, whatever the machine's load
+	limit := 6 * time.Second
+	if s.thorough {
+		limit = 60 * time.Second
+	}
+	t0 := time.Now()
 	for i := 0; i < iters && viol == ""; i++ {
-		if s.exhausted() {
+		if s.exhausted() || time.Since(t0) > limit {
 			break
 		}
 		func() {
